@@ -24,6 +24,16 @@ def self_attrs(expr):
     return [n.attr for n in ast.walk(expr) if isinstance(n, ast.Attribute) and isinstance(n.value, ast.Name) and n.value.id == "self"]
 
 
+def enclosing_if_test(node):
+    """test of the innermost `if` whose body/orelse contains node (None if there is none inside the function)"""
+    cur = getattr(node, "_parent", None)
+    while cur is not None and not isinstance(cur, (ast.FunctionDef, ast.AsyncFunctionDef, ast.Lambda)):
+        if isinstance(cur, ast.If):
+            return cur.test
+        cur = getattr(cur, "_parent", None)
+    return None
+
+
 def run(ctx, R, tier):
     p = ctx.p
     R.rule("C19-R1", "eq and hash derive from one state; getstate/setstate agree on fields and order (URI and Proxy)", floor=5)
@@ -202,6 +212,24 @@ def run(ctx, R, tier):
                     why = "the printer chooses the text form by the truthiness of self.%s, but the parser accepts a falsy value for it (stored at %s): such a URI " \
                           "prints without that part and the printed text parses to a different URI or not at all" % (fld, pl.loc(s.ast))
         R.check(ok, "C19-R4", "presence|%s" % fld, "a falsy %s is rejected by the parser" % fld, loc.loc(), why)
+
+    # the PYROMETA object is a tag set printed as ",".join(tags): a set that prints as the empty string ({""} from "PYROMETA:,") gives a text the parser rejects
+    icfg = ctx.cfg(init)
+    tagsets = [st for st, t, k in stores_in(init.node) if k == "assign" and unparse(t) == "self.object" and isinstance(st.value, ast.Call)
+               and isinstance(st.value.func, ast.Name) and st.value.func.id in ("set", "frozenset")]
+    if not tagsets:
+        tagsets = [st for st, t, k in stores_in(init.node) if k == "assign" and unparse(t) == "self.object" and isinstance(st.value, (ast.SetComp, ast.Set))]
+    if len(tagsets) != 1:
+        raise AnalysisError("URI.__init__: the PYROMETA tag set construction vanished")
+    ts = tagsets[0]
+    rejects = []
+    for n in icfg.nodes:
+        if n.kind == "stmt" and isinstance(n.ast, ast.Raise) and any(icfg.dominates(a, n) and a is not n for a in icfg.nodes_for(ts)):
+            conds = [c for c in ast.walk(enclosing_if_test(n.ast)) if True] if enclosing_if_test(n.ast) is not None else []
+            if any(unparse(c) == "self.object" for c in conds):
+                rejects.append(n)
+    R.check(bool(rejects), "C19-R4", "presence|metadata-tags", "a PYROMETA tag set that would print as the empty string is rejected by the parser", init.loc(ts),
+            "after `%s` nothing rejects a blank tag set: \"PYROMETA:,\" is accepted with the tags {\"\"} and prints as \"PYROMETA:\", which the parser refuses" % unparse(ts, 70))
 
     # ---------------------------------------------------------------- R5
     reg = ctx.fn("Pyro5.nameserver.NameServer.register")
